@@ -202,7 +202,7 @@ def _read_loop(fp, reads, empty):
     while True:
         k = reads[i % len(reads)]
         i += 1
-        chunk = fp.read(k)
+        chunk = fp.read() if k is None else fp.read(k)      # None = "the rest"
         if not chunk:
             return out
         out += chunk
@@ -363,7 +363,7 @@ def enum_cases():
                                         "style": style, "route": "var_data", "toplevel": True}]}
             j = 0
             for buffering in BUFFERINGS:
-                reads = [None, [1], [3], [7], [8], [64], [2, 5, 11]][(j + n) % 7]
+                reads = [None, [1], [3], [7], [8], [64], [2, 5, 11], [1, None], [4, 2, None]][(j + n) % 9]
                 j += 1
                 yield {"od": od, "xfers": [{"op": "ul", "index": 0x2000, "sub": 0, "data": data,
                                             "style": style, "route": "open", "buffering": buffering,
@@ -485,7 +485,8 @@ def history(draw, max_len):
                     if in_od and draw(st.booleans()):
                         x["var_open"] = True
                         x["toplevel"] = top
-                x["reads"] = draw(st.one_of(st.none(), st.lists(st.integers(1, 70), min_size=1, max_size=4)))
+                x["reads"] = draw(st.one_of(st.none(), st.lists(st.integers(1, 70), min_size=1, max_size=4),
+                                            st.lists(st.integers(1, 9), min_size=1, max_size=3).map(lambda l: l + [None])))
         xfers.append(x)
     return {"od": od, "xfers": xfers}
 
